@@ -366,6 +366,32 @@ func (m *c15Window) Step(w *mc.World, action string) {
 		if m.kind == "ev-change-2" {
 			m.kind = "ev-change"
 		}
+		if m.kind == "resp-query" {
+			// an answer to a query request gives the new state in one form: events, or
+			// the full model, or the full collection; one with several of them is
+			// invalid and has to be discarded as a whole
+			var o struct {
+				Result map[string]json.RawMessage `json:"result"`
+			}
+			if json.Unmarshal([]byte(m.payload), &o) != nil || o.Result == nil {
+				return
+			}
+			forms := 0
+			for _, k := range []string{"events", "model", "collection"} {
+				if v, ok := o.Result[k]; ok && string(v) != "null" {
+					forms++
+				}
+			}
+			if forms < 2 {
+				return
+			}
+			for _, f := range w.Conns[0].Frames[m.preFrames:] {
+				if strings.Contains(string(f), `"event":"test.q?a.`) {
+					w.Fail("C15", "invalid-message-forwarded", "the query answer gives the state in %d forms at once but the client was sent %s", forms, f)
+				}
+			}
+			return
+		}
 		target := map[string]string{"ev-change": "test.m", "ev-add": "test.c", "ev-remove": "test.c"}[m.kind]
 		if target == "" {
 			return
@@ -601,7 +627,7 @@ func enumC15(tier string, part, parts, skip int, deadline time.Time, note func(i
 		"resp-call":               {`{"result":{"x":1}}`, `{"resource":{"rid":"test.y"}}`},
 		"resp-new":                {`{"resource":{"rid":"test.y"}}`, `{"result":{"rid":"test.y"}}`},
 		"resp-auth":               {`{"result":null,"meta":{"status":302,"header":{"Location":["/x"]}}}`},
-		"resp-query":              {`{"result":{"events":[{"event":"change","data":{"values":{"v":9}}}]}}`, `{"result":{"model":{"v":9}}}`, `{"result":{"collection":[1]}}`},
+		"resp-query":              {`{"result":{"events":[{"event":"change","data":{"values":{"v":9}}}]}}`, `{"result":{"model":{"v":9}}}`, `{"result":{"collection":[1]}}`, `{"result":{"model":{"v":9},"collection":[1]}}`, `{"result":{"events":[],"model":{"v":9}}}`},
 		"resp-reset-get":          {`{"result":{"model":{"a":5,"r":{"rid":"test.y"}}}}`, `{"result":{"collection":[2]}}`},
 	}
 	var kinds []string
